@@ -1,19 +1,40 @@
 CFG = {
-    "jobs": lambda tier: [J("prod", "c17", script="tools/cli/c17_job.py", needs_repo_bins=["mlar"], timeout=2400)],
-    "rule": "production build of the mlar binary from the working tree: 14 (quick) / 160 (thorough) pipelines; each draws 1-6 input files (nesting, "
+    "run_modules": ["RunC17"],
+    "jobs": lambda tier: [J("prod", "c17", script="tools/cli/c17_job.py", needs_repo_bins=["mlar"], timeout=2400,
+                            imports="Base Stream Inst Run RunC17", shard=3)],
+    "rule": "production build of the mlar binary from the working tree. (1) ORACLE pipelines, 14 (quick) / 160 (thorough): each draws 1-6 input files (nesting, "
             "spaces, unicode, empty files, sizes {0,1,2,100,999..1001,4095..4097,65536,131071..131073,262161} (thorough also 4 MiB-1..+1) or random, "
             "zeros / text / random content), layers {none, compress, encrypt, both}, level {0,1,5,9,11}, 1-3 recipients of the sample keys; then "
             "create, list, list -vv, cat of every file, extract whole (linear) and one name at a time, to-tar, convert to another layer/key choice "
-            "(all of the above again on the converted archive), repair of the intact archive, and the key misuse cases; every pipeline is non-trivial; "
-            "distinct = distinct pipeline",
+            "(all of the above again on the converted archive), repair of the intact archive, and the key misuse cases. (2) MODEL-COMPARED cases "
+            "(work package cli17), 9+6 (quick) / 40+40 (thorough) small archives with names from a pool of special shapes (> 100 bytes, exactly 99/100 "
+            "bytes, cut inside a UTF-8 character, absolute, unicode, spaces, leading ./, //, /./, `..` short and long) and sizes around 0/64/512/1000: "
+            "(a) layer-less archives: the Coq command model READS THE REAL ARCHIVE BYTES and its list lines, list -vv sizes + stored hashes, cat output "
+            "and exit status for each name and for a missing name, and the to-tar output BYTE FOR BYTE are compared with the real binary's; convert and "
+            "repair into a layer-less archive compared as member sets (model reader over the model's output vs list + cat of the real output); a key "
+            "given for the unencrypted archive: open status and, per command (list, cat -o, cat, to-tar, convert, repair), exit status and what is left "
+            "in a pre-existing output file (untouched / truncated / written) — `repair` included since repair 9ea79db; `cat -o` / `to-tar -o` onto an existing LONGER file (result = exactly the new output); `create <dir>` of a directory holding a symbolic link to a longer regular file (+ a link given explicitly), model-compared like the others; (b) any layer combination: the outputs the theorems predict from the "
+            "input files (sorted names, sizes, SHA-256 computed in Coq, cat, tar bytes) vs the real binary on encrypted / compressed archives; missing "
+            "key on encrypted archives: per-command exit status and output effect; distinct = distinct pipeline / case",
     "exhaustive": {"quick": False, "thorough": False},
-    "explanation": "theorems: what the commands copy out of an archive the writer produced is exactly the bytes given (8 KiB reads), sizes and hashes "
-                   "true, linear form delivers to chosen names only, missing / wrong key never yields a session key (up to tag collision); Tie A: key "
-                   "policy of open_mla_file; correspondence (oracle only): paths listed == given, cat / both extract forms / to-tar / convert / repair "
-                   "give back each file's bytes, list -vv shows the SHA-256 and a size consistent with the true size, wrong / missing key and key on "
-                   "an unencrypted archive exit non-zero without output content",
-    "assumptions": ["PARTIAL: clap argument parsing, exit-status plumbing, tar header encoding, humansize rounding and the file system are not modelled; "
-                    "they are exercised by the job only",
-                    "the selected-files form of `extract` takes one name per invocation (clap single value); the job extracts the names one at a time"],
-    "level_note": "partial: library-level composition proved, process / file-system behaviour only observed; trusted: Coq kernel, tools/src2v.py, the job script tools/cli/c17_job.py",
+    "explanation": "theorems (props/C17.v): for an archive made by cmd_create from any files with any configuration (premises of C01_archive_roundtrip), "
+                   "opened with any candidate key list holding a recipient key: list = the sorted given paths; list -vv = true size and H(bytes); cat of any "
+                   "argument list = the bytes in argument order (missing names add nothing, exit 0); to-tar = Tar.tar_of, which an independent tar reader "
+                   "written in Coq reads back as the (tar name, bytes) list; convert to any configuration = create of the name-sorted files with that "
+                   "configuration, and the converted archive lists / returns the same; both extract forms leave the same bytes for benign names (C12 + C16); "
+                   "a failing open (key for an unencrypted archive, missing key, wrong key) leaves the output untouched for to-tar / convert / repair / "
+                   "extract and an EMPTY created file for cat -o (the destination is created before the open); Tie A: key policy of open_mla_file, order of "
+                   "open / output-creation events per command, cat's and to-tar's swallowed errors, tar crate version. to-tar for ANY names: the tarball read back = exactly the members whose path the tar crate accepts, each with its own bytes "
+                   "(C17_to_tar_refused_member_leaves_nothing, C17_to_tar_reads_back; dry run of 6302e72, Tie A CLI_to_tar_dry_run_before_append); repair refuses a key for "
+                   "an unencrypted archive (C17_repair_key_for_unencrypted_fails; Tie A CLI_repair_refuses_key_on_unencrypted_before_reading); the old code of both is "
+                   "kept as refuted models (…_old_code_refuted). Still true: a member with a `..` component is omitted with exit 0 "
+                   "(C17_to_tar_dotdot_member_omitted, known finding K17-totar-dotdot-omitted); cat of a missing name exits 0",
+    "assumptions": ["PARTIAL: clap argument parsing, key-file reading, stderr, humansize rounding (sizes >= 1000 bytes are checked for consistency only), the glob forms, "
+                    "stdin input of create, the directory walk (the flattened list is the model's input) and the creation of a missing output directory are not modelled",
+                    "repair of the intact archive: the command is modelled for all four layer combinations of the source; the theorem that its output holds every "
+                    "file is proved at the block-stream level for sources without compression (C17_repair_intact_preserves_files_partial); model = implementation is "
+                    "checked on layer-less archives",
+                    "the selected-files form of `extract` and `cat` take one name per invocation (clap single value); the model takes lists",
+                    "tar crate 0.4.44 is modelled (Tar.v); Tie A pins the version in Cargo.lock"],
+    "level_note": "partial: command logic modelled and proved as compositions of the library theorems; process / clap / file-system plumbing observed; trusted: Coq kernel, tools/src2v.py, the job script tools/cli/c17_job.py",
 }
